@@ -190,7 +190,7 @@ func (r *run) pwClass(gs []kit.Goroutine) string {
 	}
 	for _, g := range gs {
 		if strings.Contains(g.Stack, "onceChan).write") && strings.Contains(g.Stack, "runtime.chansend") && strings.Contains(g.Stack, "guardedWriter") {
-			return "send-on-closed-channel"
+			return "send-on-closed-channel/" + r.closeRaceClass()
 		}
 	}
 	if origin == "reducer-runtime-panic" || origin == "other" {
@@ -251,4 +251,22 @@ func stacksOf(gs []kit.Goroutine) []string {
 		s = append(s, strconv.Itoa(g.Count)+" x\n"+g.Stack)
 	}
 	return s
+}
+
+// closeRaceClass: was the reducer Write that blew up ("send on closed channel")
+// begun while the termination (cancel / context branch) was still in progress,
+// or only after a cancel call had already returned (then it had to be dropped)?
+func (r *run) closeRaceClass() string {
+	cs := r.cancelsCopy()
+	for _, w := range r.writesCopy() {
+		if w.Ret != 0 {
+			continue
+		}
+		for _, c := range cs {
+			if c.Ret != 0 && c.Ret < w.Inv {
+				return "write-began-after-cancel-returned"
+			}
+		}
+	}
+	return "write-concurrent-with-termination"
 }
